@@ -5,19 +5,348 @@ OH = 'src/strict/open_hypergraph/arrow.rs'
 
 module('layer')
 
+raw(r'''
+/// C15 in local form, over the dependency relation of the diagram itself (t, s = target / source incidence,
+/// n = number of operations):
+///  * every dependency of a visited operation is visited and lies in a strictly smaller layer;
+///  * a visited operation in layer l > 0 has a dependency in layer l - 1 (so its layer is the length of the longest
+///    dependency chain ending in it, and layers are numbered from 0 without gaps);
+///  * an unvisited operation depends on an unvisited operation (so, the set being finite, it is on or downstream of a cycle),
+///    and by the first clause nothing on or downstream of a cycle can be visited.
+pub open spec fn layer_ok(t: IndexedCoproduct<FiniteFunction>, s: IndexedCoproduct<FiniteFunction>, n: int, order: Seq<usize>, unvisited: Seq<usize>) -> bool {
+    &&& order.len() == n && unvisited.len() == n
+    &&& forall|y: int| 0 <= y < n ==> (#[trigger] unvisited[y]) <= 1
+    &&& forall|y: int| 0 <= y < n ==> (#[trigger] order[y]) < n
+    &&& forall|x: int, y: int| 0 <= x < n && 0 <= y < n && unvisited[y] == 0 && #[trigger] depends(t, s, x, y) ==> unvisited[x] == 0 && order[x] < order[y]
+    &&& forall|y: int| 0 <= y < n && unvisited[y] == 0 && order[y] > 0 ==> #[trigger] has_dep_at(t, s, n, order, unvisited, y, order[y] as int)
+    &&& forall|y: int| 0 <= y < n && unvisited[y] == 1 ==> #[trigger] has_unvisited_dep(t, s, n, unvisited, y)
+}
+
+/// y depends on a visited operation of layer d - 1
+pub open spec fn has_dep_at(t: IndexedCoproduct<FiniteFunction>, s: IndexedCoproduct<FiniteFunction>, n: int, order: Seq<usize>, unvisited: Seq<usize>, y: int, d: int) -> bool {
+    exists|x: int| 0 <= x < n && #[trigger] depends(t, s, x, y) && unvisited[x] == 0 && order[x] + 1 == d
+}
+
+/// y depends on an unvisited operation
+pub open spec fn has_unvisited_dep(t: IndexedCoproduct<FiniteFunction>, s: IndexedCoproduct<FiniteFunction>, n: int, unvisited: Seq<usize>, y: int) -> bool {
+    exists|x: int| 0 <= x < n && #[trigger] depends(t, s, x, y) && unvisited[x] == 1
+}
+
+pub proof fn lemma_layer_ok(t: IndexedCoproduct<FiniteFunction>, s: IndexedCoproduct<FiniteFunction>, a: IndexedCoproduct<FiniteFunction>, order: Seq<usize>, unvisited: Seq<usize>)
+    requires kahn_ok(a, order, unvisited),
+        forall|x: int, y: int| 0 <= x < a.sources.table@.len() && 0 <= y < a.sources.table@.len() ==> (#[trigger] adj_edge(a, x, y) <==> depends(t, s, x, y)),
+    ensures layer_ok(t, s, a.sources.table@.len() as int, order, unvisited)
+{
+    let n = a.sources.table@.len() as int;
+    assert forall|x: int, y: int| 0 <= x < n && 0 <= y < n && unvisited[y] == 0 && #[trigger] depends(t, s, x, y) implies unvisited[x] == 0 && order[x] < order[y] by {
+        assert(adj_edge(a, x, y));
+    }
+    assert forall|y: int| 0 <= y < n && unvisited[y] == 0 && order[y] > 0 implies #[trigger] has_dep_at(t, s, n, order, unvisited, y, order[y] as int) by {
+        assert(has_pred_at(a, order, unvisited, y, order[y] as int));
+        let x = choose|x: int| 0 <= x < n && #[trigger] adj_edge(a, x, y) && unvisited[x] == 0 && order[x] + 1 == order[y];
+        assert(depends(t, s, x, y));
+    }
+    assert forall|y: int| 0 <= y < n && unvisited[y] == 1 implies #[trigger] has_unvisited_dep(t, s, n, unvisited, y) by {
+        assert(has_unvisited_pred(a, unvisited, y));
+        let x = choose|x: int| 0 <= x < n && #[trigger] adj_edge(a, x, y) && unvisited[x] == 1;
+        assert(depends(t, s, x, y));
+    }
+}
+
+/// `order` numbers the n nodes so that every step w -> v goes strictly upwards: a certificate that no node reaches itself
+pub open spec fn topo_numbering(s: IndexedCoproduct<FiniteFunction>, t: IndexedCoproduct<FiniteFunction>, n: int, order: Seq<usize>) -> bool {
+    &&& order.len() == n
+    &&& forall|w: int, v: int| 0 <= w < n && 0 <= v < n && #[trigger] node_step(s, t, w, v) ==> order[w] < order[v]
+}
+
+/// `u` marks a non-empty set of nodes each of which has a predecessor in the set: following predecessors inside the
+/// finite set must repeat a node, so some node reaches itself
+pub open spec fn pred_closed(s: IndexedCoproduct<FiniteFunction>, t: IndexedCoproduct<FiniteFunction>, n: int, u: Seq<usize>) -> bool {
+    &&& u.len() == n
+    &&& exists|v: int| 0 <= v < n && (#[trigger] u[v]) == 1
+    &&& forall|v: int| 0 <= v < n && u[v] == 1 ==> #[trigger] has_marked_pred(s, t, n, u, v)
+}
+
+pub open spec fn has_marked_pred(s: IndexedCoproduct<FiniteFunction>, t: IndexedCoproduct<FiniteFunction>, n: int, u: Seq<usize>, v: int) -> bool {
+    exists|w: int| 0 <= w < n && #[trigger] node_step(s, t, w, v) && u[w] == 1
+}
+
+pub proof fn lemma_total_zero(u: Seq<usize>, n: int)
+    requires 0 <= n <= u.len(), psum(u, n) == 0
+    ensures forall|i: int| 0 <= i < n ==> u[i] == 0
+    decreases n
+{
+    if n > 0 { lemma_psum_mono(u, 0, n - 1); lemma_total_zero(u, n - 1); }
+}
+
+pub proof fn lemma_total_pos(u: Seq<usize>, n: int) -> (i: int)
+    requires 0 <= n <= u.len(), psum(u, n) > 0
+    ensures 0 <= i < n, u[i] > 0
+    decreases n
+{
+    if u[n - 1] > 0 { n - 1 } else { lemma_total_pos(u, n - 1) }
+}
+
+pub proof fn lemma_acyclic_certificates(s: IndexedCoproduct<FiniteFunction>, t: IndexedCoproduct<FiniteFunction>, a: IndexedCoproduct<FiniteFunction>, order: Seq<usize>, unvisited: Seq<usize>)
+    requires kahn_ok(a, order, unvisited),
+        forall|w: int, v: int| 0 <= w < a.sources.table@.len() && 0 <= v < a.sources.table@.len() ==> (#[trigger] adj_edge(a, w, v) <==> node_step(s, t, w, v)),
+    ensures total(unvisited) == 0 ==> topo_numbering(s, t, a.sources.table@.len() as int, order),
+        total(unvisited) != 0 ==> pred_closed(s, t, a.sources.table@.len() as int, unvisited),
+{
+    let n = a.sources.table@.len() as int;
+    if total(unvisited) == 0 {
+        lemma_total_zero(unvisited, n);
+        assert forall|w: int, v: int| 0 <= w < n && 0 <= v < n && #[trigger] node_step(s, t, w, v) implies order[w] < order[v] by {
+            assert(adj_edge(a, w, v));
+            assert(unvisited[v] == 0);
+        }
+    } else {
+        lemma_psum_mono(unvisited, 0, n);
+        let i = lemma_total_pos(unvisited, n);
+        assert(unvisited[i] <= 1);
+        assert forall|v: int| 0 <= v < n && unvisited[v] == 1 implies #[trigger] has_marked_pred(s, t, n, unvisited, v) by {
+            assert(has_unvisited_pred(a, unvisited, v));
+            let w = choose|w: int| 0 <= w < n && #[trigger] adj_edge(a, w, v) && unvisited[w] == 1;
+            assert(node_step(s, t, w, v));
+        }
+    }
+}
+''')
+
+raw(r'''
+// ---------------------------------------------------------------------------------------------
+// walks and cycles over the node-step relation: the local certificates decide "some node reaches itself"
+// ---------------------------------------------------------------------------------------------
+/// p[0] -> p[1] -> ... -> p[len-1], at least one step
+pub open spec fn is_walk(s: IndexedCoproduct<FiniteFunction>, t: IndexedCoproduct<FiniteFunction>, n: int, p: Seq<int>) -> bool {
+    &&& p.len() >= 2
+    &&& forall|i: int| 0 <= i < p.len() ==> 0 <= #[trigger] p[i] < n
+    &&& forall|i: int, j: int| 0 <= i && j == i + 1 && j < p.len() ==> node_step(s, t, #[trigger] p[i], #[trigger] p[j])
+}
+
+/// some node reaches itself by following hyperedges from a source node to a target node
+pub open spec fn has_cycle(s: IndexedCoproduct<FiniteFunction>, t: IndexedCoproduct<FiniteFunction>, n: int) -> bool {
+    exists|p: Seq<int>| #[trigger] is_walk(s, t, n, p) && p[0] == p[p.len() - 1]
+}
+
+pub proof fn lemma_walk_increases(s: IndexedCoproduct<FiniteFunction>, t: IndexedCoproduct<FiniteFunction>, n: int, order: Seq<usize>, p: Seq<int>, k: int)
+    requires topo_numbering(s, t, n, order), is_walk(s, t, n, p), 1 <= k < p.len()
+    ensures order[p[0]] < order[p[k]]
+    decreases k
+{
+    assert(node_step(s, t, p[k - 1], p[k]));
+    if k > 1 { lemma_walk_increases(s, t, n, order, p, k - 1); }
+}
+
+pub proof fn lemma_topo_no_cycle(s: IndexedCoproduct<FiniteFunction>, t: IndexedCoproduct<FiniteFunction>, n: int, order: Seq<usize>)
+    requires topo_numbering(s, t, n, order)
+    ensures !has_cycle(s, t, n)
+{
+    if has_cycle(s, t, n) {
+        let p = choose|p: Seq<int>| #[trigger] is_walk(s, t, n, p) && p[0] == p[p.len() - 1];
+        lemma_walk_increases(s, t, n, order, p, p.len() - 1);
+    }
+}
+
+/// k steps backwards from v0 inside the marked set
+pub open spec fn back(s: IndexedCoproduct<FiniteFunction>, t: IndexedCoproduct<FiniteFunction>, n: int, u: Seq<usize>, v0: int, k: int) -> int
+    decreases k
+{
+    if k <= 0 { v0 } else {
+        let v = back(s, t, n, u, v0, k - 1);
+        choose|w: int| 0 <= w < n && #[trigger] node_step(s, t, w, v) && u[w] == 1
+    }
+}
+
+pub proof fn lemma_back(s: IndexedCoproduct<FiniteFunction>, t: IndexedCoproduct<FiniteFunction>, n: int, u: Seq<usize>, v0: int, k: int)
+    requires pred_closed(s, t, n, u), 0 <= v0 < n, u[v0] == 1, 0 <= k
+    ensures 0 <= back(s, t, n, u, v0, k) < n, u[back(s, t, n, u, v0, k)] == 1,
+        k > 0 ==> node_step(s, t, back(s, t, n, u, v0, k), back(s, t, n, u, v0, k - 1)),
+    decreases k
+{
+    if k > 0 {
+        lemma_back(s, t, n, u, v0, k - 1);
+        let v = back(s, t, n, u, v0, k - 1);
+        assert(has_marked_pred(s, t, n, u, v));
+    }
+}
+
+/// more than n values below n cannot be pairwise distinct
+pub proof fn lemma_pigeonhole(f: Seq<usize>, n: int) -> (r: (int, int))
+    requires in_bounds(f, n), f.len() > n, n >= 0
+    ensures 0 <= r.0 < r.1 < f.len(), f[r.0] == f[r.1]
+{
+    if injective(f) {
+        let ones = Seq::new(n as nat, |i: int| 1usize);
+        lemma_injective_selection(ones, f);
+        lemma_psum_const(ones, 1usize, n);
+        lemma_psum_const(kseq(ones, f), 1usize, f.len() as int);
+        assert(false);
+    }
+    let (i, j) = choose|i: int, j: int| 0 <= i < f.len() && 0 <= j < f.len() && i != j && f[i] == f[j];
+    if i < j { (i, j) } else { (j, i) }
+}
+
+pub proof fn lemma_closed_set_has_cycle(s: IndexedCoproduct<FiniteFunction>, t: IndexedCoproduct<FiniteFunction>, n: int, u: Seq<usize>)
+    requires pred_closed(s, t, n, u), 0 <= n <= usize::MAX
+    ensures has_cycle(s, t, n)
+{
+    let v0 = choose|v: int| 0 <= v < n && (#[trigger] u[v]) == 1;
+    let f = Seq::new((n + 1) as nat, |k: int| back(s, t, n, u, v0, k) as usize);
+    assert forall|k: int| 0 <= k < f.len() implies (#[trigger] f[k]) < n && f[k] == back(s, t, n, u, v0, k) by { lemma_back(s, t, n, u, v0, k); }
+    let (i, j) = lemma_pigeonhole(f, n);
+    let p = Seq::new((j - i + 1) as nat, |m: int| back(s, t, n, u, v0, j - m));
+    assert forall|a: int| 0 <= a < p.len() implies 0 <= #[trigger] p[a] < n by { lemma_back(s, t, n, u, v0, j - a); }
+    assert forall|a: int, b: int| 0 <= a && b == a + 1 && b < p.len() implies node_step(s, t, #[trigger] p[a], #[trigger] p[b]) by {
+        lemma_back(s, t, n, u, v0, j - a);
+    }
+    assert(is_walk(s, t, n, p));
+    assert(p[0] == f[j] && p[p.len() - 1] == f[i]);
+}
+''')
+
+raw(r'''
+// ---------------------------------------------------------------------------------------------
+// dependency chains: the local form layer_ok is the path form of C15
+// ---------------------------------------------------------------------------------------------
+/// p[0], p[1], ..., each depending on the one before
+pub open spec fn is_chain(t: IndexedCoproduct<FiniteFunction>, s: IndexedCoproduct<FiniteFunction>, n: int, p: Seq<int>) -> bool {
+    &&& p.len() >= 1
+    &&& forall|i: int| 0 <= i < p.len() ==> 0 <= #[trigger] p[i] < n
+    &&& forall|i: int, j: int| 0 <= i && j == i + 1 && j < p.len() ==> depends(t, s, #[trigger] p[i], #[trigger] p[j])
+}
+
+/// y is on or downstream of a dependency cycle: some chain ending in y visits an operation twice
+pub open spec fn on_or_after_cycle(t: IndexedCoproduct<FiniteFunction>, s: IndexedCoproduct<FiniteFunction>, n: int, y: int) -> bool {
+    exists|p: Seq<int>, i: int, j: int| #[trigger] is_chain(t, s, n, p) && p[p.len() - 1] == y && 0 <= i < j < p.len() && #[trigger] p[i] == #[trigger] p[j]
+}
+
+/// along a chain into a visited operation everything is visited and the layers grow by at least one per step
+pub proof fn lemma_chain_orders(t: IndexedCoproduct<FiniteFunction>, s: IndexedCoproduct<FiniteFunction>, n: int, order: Seq<usize>, unvisited: Seq<usize>, p: Seq<int>, k: int)
+    requires layer_ok(t, s, n, order, unvisited), is_chain(t, s, n, p), unvisited[p[p.len() - 1]] == 0, 0 <= k < p.len()
+    ensures unvisited[p[k]] == 0, order[p[k]] + (p.len() - 1 - k) <= order[p[p.len() - 1]]
+    decreases p.len() - k
+{
+    if k < p.len() - 1 {
+        lemma_chain_orders(t, s, n, order, unvisited, p, k + 1);
+        assert(depends(t, s, p[k], p[k + 1]));
+    }
+}
+
+/// (a) no dependency chain into a visited operation y has more than order[y] + 1 operations
+pub proof fn lemma_layer_upper(t: IndexedCoproduct<FiniteFunction>, s: IndexedCoproduct<FiniteFunction>, n: int, order: Seq<usize>, unvisited: Seq<usize>, p: Seq<int>)
+    requires layer_ok(t, s, n, order, unvisited), is_chain(t, s, n, p), unvisited[p[p.len() - 1]] == 0
+    ensures p.len() <= order[p[p.len() - 1]] + 1
+{
+    lemma_chain_orders(t, s, n, order, unvisited, p, 0);
+}
+
+/// (b) ... and one with exactly that many exists, through layers 0, 1, ..., order[y]
+pub proof fn lemma_layer_chain(t: IndexedCoproduct<FiniteFunction>, s: IndexedCoproduct<FiniteFunction>, n: int, order: Seq<usize>, unvisited: Seq<usize>, y: int) -> (p: Seq<int>)
+    requires layer_ok(t, s, n, order, unvisited), 0 <= y < n, unvisited[y] == 0
+    ensures is_chain(t, s, n, p), p.len() == order[y] + 1, p[p.len() - 1] == y,
+        forall|k: int| 0 <= k < p.len() ==> unvisited[#[trigger] p[k]] == 0 && order[p[k]] == k
+    decreases order[y]
+{
+    if order[y] == 0 {
+        seq![y]
+    } else {
+        assert(has_dep_at(t, s, n, order, unvisited, y, order[y] as int));
+        let x = choose|x: int| 0 <= x < n && #[trigger] depends(t, s, x, y) && unvisited[x] == 0 && order[x] + 1 == order[y];
+        let q = lemma_layer_chain(t, s, n, order, unvisited, x);
+        let p = q.push(y);
+        assert forall|i: int, j: int| 0 <= i && j == i + 1 && j < p.len() implies depends(t, s, #[trigger] p[i], #[trigger] p[j]) by {
+            if j < q.len() { assert(p[i] == q[i] && p[j] == q[j]); } else { assert(p[i] == q[q.len() - 1]); }
+        }
+        assert forall|k: int| 0 <= k < p.len() implies 0 <= #[trigger] p[k] < n && unvisited[p[k]] == 0 && order[p[k]] == k by {
+            if k < q.len() { assert(p[k] == q[k]); }
+        }
+        p
+    }
+}
+
+/// k steps backwards from y0 inside the unvisited set
+pub open spec fn back_dep(t: IndexedCoproduct<FiniteFunction>, s: IndexedCoproduct<FiniteFunction>, n: int, u: Seq<usize>, y0: int, k: int) -> int
+    decreases k
+{
+    if k <= 0 { y0 } else {
+        let y = back_dep(t, s, n, u, y0, k - 1);
+        choose|x: int| 0 <= x < n && #[trigger] depends(t, s, x, y) && u[x] == 1
+    }
+}
+
+pub proof fn lemma_back_dep(t: IndexedCoproduct<FiniteFunction>, s: IndexedCoproduct<FiniteFunction>, n: int, order: Seq<usize>, u: Seq<usize>, y0: int, k: int)
+    requires layer_ok(t, s, n, order, u), 0 <= y0 < n, u[y0] == 1, 0 <= k
+    ensures 0 <= back_dep(t, s, n, u, y0, k) < n, u[back_dep(t, s, n, u, y0, k)] == 1,
+        k > 0 ==> depends(t, s, back_dep(t, s, n, u, y0, k), back_dep(t, s, n, u, y0, k - 1)),
+    decreases k
+{
+    if k > 0 {
+        lemma_back_dep(t, s, n, order, u, y0, k - 1);
+        assert(has_unvisited_dep(t, s, n, u, back_dep(t, s, n, u, y0, k - 1)));
+    }
+}
+
+/// (c) the unvisited operations are exactly those on or downstream of a dependency cycle
+pub proof fn lemma_unvisited_iff_cycle(t: IndexedCoproduct<FiniteFunction>, s: IndexedCoproduct<FiniteFunction>, n: int, order: Seq<usize>, unvisited: Seq<usize>, y: int)
+    requires layer_ok(t, s, n, order, unvisited), 0 <= y < n, n <= usize::MAX
+    ensures unvisited[y] == 1 <==> on_or_after_cycle(t, s, n, y)
+{
+    assert(unvisited[y] <= 1);
+    if unvisited[y] == 1 {
+        let f = Seq::new((n + 1) as nat, |k: int| back_dep(t, s, n, unvisited, y, k) as usize);
+        assert forall|k: int| 0 <= k < f.len() implies (#[trigger] f[k]) < n && f[k] == back_dep(t, s, n, unvisited, y, k) by { lemma_back_dep(t, s, n, order, unvisited, y, k); }
+        let (i, j) = lemma_pigeonhole(f, n);
+        // the chain back_dep(j), ..., back_dep(0) = y repeats an operation at positions 0 and j - i
+        let p = Seq::new((j + 1) as nat, |m: int| back_dep(t, s, n, unvisited, y, j - m));
+        assert forall|a: int| 0 <= a < p.len() implies 0 <= #[trigger] p[a] < n by { lemma_back_dep(t, s, n, order, unvisited, y, j - a); }
+        assert forall|a: int, b: int| 0 <= a && b == a + 1 && b < p.len() implies depends(t, s, #[trigger] p[a], #[trigger] p[b]) by {
+            lemma_back_dep(t, s, n, order, unvisited, y, j - a);
+        }
+        assert(is_chain(t, s, n, p));
+        assert(p[0] == f[j] && p[j - i] == f[i] && p[p.len() - 1] == y);
+    }
+    if on_or_after_cycle(t, s, n, y) && unvisited[y] == 0 {
+        let (p, i, j) = choose|p: Seq<int>, i: int, j: int| #[trigger] is_chain(t, s, n, p) && p[p.len() - 1] == y && 0 <= i < j < p.len() && #[trigger] p[i] == #[trigger] p[j];
+        // the prefix chain p[0..=j] ends in a visited operation, so its layers strictly grow
+        let q = p.subrange(0, j + 1);
+        lemma_chain_orders(t, s, n, order, unvisited, p, j);
+        assert forall|a: int, b: int| 0 <= a && b == a + 1 && b < q.len() implies depends(t, s, #[trigger] q[a], #[trigger] q[b]) by {
+            assert(q[a] == p[a] && q[b] == p[b]);
+        }
+        assert forall|a: int| 0 <= a < q.len() implies 0 <= #[trigger] q[a] < n by { assert(q[a] == p[a]); }
+        assert(is_chain(t, s, n, q));
+        lemma_chain_orders(t, s, n, order, unvisited, q, i);
+        assert(q[i] == p[i] && q[q.len() - 1] == p[j]);
+    }
+}
+''')
+
 fn(LY, 'layer', kind='free', status='P', props=['C15', 'C16'], where_add='O: Clone, A: Clone',
    requires=['f.wf()', 'adjacency_fits(f.h.t, f.h.s)'],
    ensures=[('C15.layer-shape', 'r.0.table@.len() == f.h.x@.len() && r.0.target == f.h.x@.len() && r.1@.len() == f.h.x@.len()'),
-            ('C15.layer-wf', 'r.0.wf()')])
+            ('C15.layer-wf', 'r.0.wf()'),
+            ('C15.layer', 'layer_ok(f.h.t, f.h.s, f.h.x@.len() as int, r.0.table@, r.1@)')],
+   proofs=[('after:let (ordering, completed) = graph::kahn(&a);', 'lemma_layer_ok(f.h.t, f.h.s, a, ordering@, completed@);')])
 
 group('impl<O: Clone, A: Clone> Hypergraph<O, A>')
 fn(AC, 'is_acyclic', self_ty='Hypergraph', status='P', props=['C17'],
    requires=['self.wf()', 'adjacency_fits(self.s, self.t)', 'self.w@.len() < usize::MAX'],
-   ensures=[('C17.is_acyclic-returns', 'true')],
-   proofs=[('end', 'lemma_psum_le(unvisited@, 1, unvisited@.len() as int);')])
+   ensures=[('C17.is_acyclic-returns', 'true'),
+            ('C17.is_acyclic-true', 'r ==> exists|order: Seq<usize>| topo_numbering(self.s, self.t, self.w@.len() as int, order)'),
+            ('C17.is_acyclic-false', '!r ==> exists|u: Seq<usize>| pred_closed(self.s, self.t, self.w@.len() as int, u)'),
+            ('C17.is_acyclic', 'r <==> !has_cycle(self.s, self.t, self.w@.len() as int)')],
+   proofs=[('start', 'assert(topo_numbering(self.s, self.t, 0, Seq::<usize>::empty())); if self.w@.len() == 0 { lemma_topo_no_cycle(self.s, self.t, 0, Seq::<usize>::empty()); }'),
+           ('end', '''lemma_psum_le(unvisited@, 1, unvisited@.len() as int);
+            lemma_acyclic_certificates(self.s, self.t, adjacency, _order@, unvisited@);
+            if total(unvisited@) == 0 { lemma_topo_no_cycle(self.s, self.t, self.w@.len() as int, _order@); }
+            else { lemma_closed_set_has_cycle(self.s, self.t, self.w@.len() as int, unvisited@); }''')])
 endgroup()
 group('impl<O: Clone, A: Clone> OpenHypergraph<O, A>')
 fn(OH, 'is_acyclic', self_ty='OpenHypergraph', status='P', props=['C17'],
    requires=['self.wf()', 'adjacency_fits(self.h.s, self.h.t)', 'self.h.w@.len() < usize::MAX'],
-   ensures=[('C17.oh-is_acyclic-returns', 'true')])
+   ensures=[('C17.oh-is_acyclic-returns', 'true'),
+            ('C17.oh-is_acyclic-true', 'r ==> exists|order: Seq<usize>| topo_numbering(self.h.s, self.h.t, self.h.w@.len() as int, order)'),
+            ('C17.oh-is_acyclic-false', '!r ==> exists|u: Seq<usize>| pred_closed(self.h.s, self.h.t, self.h.w@.len() as int, u)'),
+            ('C17.oh-is_acyclic', 'r <==> !has_cycle(self.h.s, self.h.t, self.h.w@.len() as int)')])
 endgroup()
